@@ -12,15 +12,22 @@
 # See the License for the specific language governing permissions and
 # limitations under the License.
 
+from typing import Callable, Optional
+
 from gapic.utils.reserved_names import RESERVED_NAMES
 from google.api_core import path_template
 
 
-def convert_uri_fieldnames(uri: str) -> str:
+def convert_uri_fieldnames(
+    uri: str, attr_path: Optional[Callable[[str], Optional[str]]] = None
+) -> str:
     """Modify field names in uri_templates to avoid reserved names.
 
     Args:
         uri: a uri template, optionally containing field references in {} braces.
+        attr_path: optionally, a function from a field path to the path
+            with the names that the fields along it have on the request
+            (None if it does not resolve).
 
     Returns:
         the uri with any field names modified if they conflict with
@@ -31,6 +38,9 @@ def convert_uri_fieldnames(uri: str) -> str:
         return name_seg + "_" if name_seg in RESERVED_NAMES else name_seg
 
     def _fix_field_path(field_path: str) -> str:
+        known = attr_path(field_path) if attr_path else None
+        if known is not None:
+            return known
         return ".".join(
             (_fix_name_segment(name_seg) for name_seg in field_path.split("."))
         )
